@@ -1,5 +1,7 @@
 // Package vmap turns Go's randomised map iteration order into an environment answer the
-// explorer owns: `for k, v := range m` is rewritten to `for k, v := range vmap.Range(m)`.
+// explorer owns: `for k, v := range m` in instrumented files is rewritten to
+// `for k, v := range vmap.Range(m)`. The process-wide Env chooses the
+// order of every range loop; without one the runtime's own order is used.
 package vmap
 
 import (
@@ -8,17 +10,22 @@ import (
 	"sort"
 )
 
-// Choose, when set, picks the iteration order for one range loop over n keys (already sorted
-// ascending): it returns a permutation of 0..n-1 (nil = ascending). call counts range loops.
-var Choose func(call int, n int) []int
+// Env is the map-order environment of one goroutine.
+type Env struct {
+	// Choose picks the iteration order for range loop number `call` (0-based since Reset) over n
+	// keys sorted ascending: it returns a permutation of 0..n-1, or nil for ascending order.
+	Choose func(call int, n int) []int
+	Calls  int   // range loops executed since Reset
+	Sizes  []int // number of keys of each of them
+}
 
-var calls int
+func (e *Env) Reset() { e.Calls = 0; e.Sizes = e.Sizes[:0] }
 
-// Reset restarts the call counter (start of one execution).
-func Reset() { calls = 0 }
+// Global is the environment of this process (nil = the runtime's own order). Harnesses that
+// use it run their enumeration single-threaded (one process per shard).
+var Global *Env
 
-// Calls returns the number of range loops executed since Reset.
-func Calls() int { return calls }
+func current() *Env { return Global }
 
 func less(a, b any) bool {
 	switch x := a.(type) {
@@ -37,7 +44,8 @@ func less(a, b any) bool {
 // Range iterates over m like the range statement does (entries deleted before they are
 // reached are skipped, entries inserted during the loop are not produced), in the chosen order.
 func Range[M ~map[K]V, K comparable, V any](m M) iter.Seq2[K, V] {
-	if Choose == nil {
+	e := current()
+	if e == nil {
 		return func(yield func(K, V) bool) {
 			for k, v := range m {
 				if !yield(k, v) {
@@ -52,9 +60,13 @@ func Range[M ~map[K]V, K comparable, V any](m M) iter.Seq2[K, V] {
 			keys = append(keys, k)
 		}
 		sort.Slice(keys, func(i, j int) bool { return less(keys[i], keys[j]) })
-		call := calls
-		calls++
-		perm := Choose(call, len(keys))
+		call := e.Calls
+		e.Calls++
+		e.Sizes = append(e.Sizes, len(keys))
+		var perm []int
+		if e.Choose != nil {
+			perm = e.Choose(call, len(keys))
+		}
 		for i := range keys {
 			k := keys[i]
 			if perm != nil {
